@@ -1,6 +1,7 @@
 """Shared machinery for C01 / C06 (bottleneck): model runs, R and V legs, TLC validation via TraceBottleneck."""
 import json, os, tempfile
 from . import tlc
+from .common import mktempdir as _mktempdir
 from .common import EXACT_EMBS, DEC_EMBS, unfl, run_driver_parallel
 from .dgm import gen_dgm, to_float_dgm, fin, bott_certificate
 
@@ -122,7 +123,7 @@ def run(ctx, mine):
         r = tlc.run_tlc("Bottleneck", workers=16, constants=cst, invariants=inv, heap="8g", timeout=7200)
         ctx.model("Bottleneck %s %s" % (cst, inv), r, constants=cst)
     # ---- R: the diagram set TLC's Init ranges over, dumped by the spec
-    dump = os.path.join(tempfile.mkdtemp(prefix="bottdump_"), "dump.json")
+    dump = os.path.join(_mktempdir(prefix="bottdump_"), "dump.json")
     r = tlc.run_tlc("Bottleneck", workers=1, env={"DUMP_FILE": dump}, init="DumpInit", nxt="DumpNext",
                     constants=dict(B=3, MaxS=3, MaxT=3, WithInf=True, TrackMatching=False))
     if r["error"] or not os.path.exists(dump):
